@@ -198,7 +198,7 @@ impl Property for C18 {
     type Scenario = Scenario;
 
     fn rule() -> String {
-        "seeded programs over 1-2 rings (depth 1-8) and 1-3 files: pushes of Read/Write/Fsync/AsyncCancel SQEs with unique user_data (incl. pushes into a full SQ, unsupported flags, ops on files closed before completion), submit, virtual time advancing by seeded amounts, drains (sync then iterate fully or partially, draining late), ring drop with ops in flight, io latency min/max and page cache on/off; fault enumeration: for every seeded program a host crash (handles dropped, IoUringHostState::crash + Fs::crash, then new rings) is injected after EVERY prefix. Oracle: exactly one CQE per submitted entry (cancelled target: one -ECANCELED and its buffer keeps its sentinel bytes for the rest of the run), visible count after sync between 'must be visible by submit+max latency' and 'may be visible from submit+min latency', results and file effects equal the reference file model applied in observed CQE order, final file contents through the std shim equal the model, after a crash nothing submitted earlier completes or takes effect and the files hold their durable image. Non-trivial: >=3 ops in flight at once and >=1 cancel or crash; distinct = digest of (op kinds, CQE result kinds). Added later: 1-4 ring slots with ring churn; software that returns with operations in flight (stale handle drained after crash+bounce); a task parked in AsyncFd::readable on an idle ring while a sibling submits an unsupported entry; O_DIRECT files (alignment 4/8/16) with aligned and misaligned transfers; duplicate fsync tags; sync_probability 1.0 (a completed ring write is durable like a synchronous one); descriptors duplicated with try_clone.".into()
+        "seeded programs over 1-2 rings (depth 1-8) and 1-3 files: pushes of Read/Write/Fsync/AsyncCancel SQEs with unique user_data (incl. pushes into a full SQ, unsupported flags, ops on files closed before completion), submit, virtual time advancing by seeded amounts, drains (sync then iterate fully or partially, draining late), ring drop with ops in flight, io latency min/max and page cache on/off; fault enumeration: for every seeded program a host crash (handles dropped, IoUringHostState::crash + Fs::crash, then new rings) is injected after EVERY prefix. Oracle: exactly one CQE per submitted entry (cancelled target: one -ECANCELED and its buffer keeps its sentinel bytes for the rest of the run), visible count after sync between 'must be visible by submit+max latency' and 'may be visible from submit+min latency', results and file effects equal the reference file model applied in observed CQE order, final file contents through the std shim equal the model, after a crash nothing submitted earlier completes or takes effect and the files hold their durable image. Non-trivial: >=3 ops in flight at once and >=1 cancel or crash; distinct = digest of (op kinds, CQE result kinds). Added later: 1-4 ring slots with ring churn; software that returns with operations in flight (stale handle drained after crash+bounce); a task parked in AsyncFd::readable on an idle ring while a sibling submits an unsupported entry; O_DIRECT files (alignment 4/8/16) with aligned and misaligned transfers; duplicate fsync tags; sync_probability 1.0 (a completed ring write is durable like a synchronous one); descriptors duplicated with try_clone. Round 11: the sibling of a reader parked on an idle ring submits a valid fsync in every other run; the reader must be woken when it matures.".into()
     }
     fn components_real() -> Vec<&'static str> {
         vec!["turmoil-io-uring: IoUring, SubmissionQueue::push, Submitter::submit, CompletionQueue::sync/iterate, opcode::{Read,Write,Fsync,AsyncCancel}, RingState scheduling/cancel, IoUringHostState::crash, host::enter", "turmoil-fs: Fs (read_file/write_file/sync_file/crash, io latency, page cache), std shim for the synchronous comparison"]
